@@ -292,6 +292,44 @@ fn tree_strip(v: &mut Value) {
     }
 }
 
+fn short(v: &Value) -> String {
+    let s = v.to_string();
+    if s.len() > 160 { format!("{}…", s.chars().take(160).collect::<String>()) } else { s }
+}
+
+fn first_diff(a: &Value, b: &Value, path: String) -> Option<(String, String, String)> {
+    if a == b {
+        return None;
+    }
+    match (a, b) {
+        (Value::Object(x), Value::Object(y)) => {
+            let kx: Vec<&String> = x.keys().collect();
+            let ky: Vec<&String> = y.keys().collect();
+            if kx != ky {
+                return Some((path, format!("keys {:?}", kx), format!("keys {:?}", ky)));
+            }
+            for (k, v) in x {
+                if let Some(d) = first_diff(v, &y[k], format!("{path}.{k}")) {
+                    return Some(d);
+                }
+            }
+            None
+        }
+        (Value::Array(x), Value::Array(y)) => {
+            if x.len() != y.len() {
+                return Some((path, format!("len {} {}", x.len(), short(a)), format!("len {} {}", y.len(), short(b))));
+            }
+            for (i, (v, w)) in x.iter().zip(y.iter()).enumerate() {
+                if let Some(d) = first_diff(v, w, format!("{path}[{i}]")) {
+                    return Some(d);
+                }
+            }
+            None
+        }
+        _ => Some((path, short(a), short(b))),
+    }
+}
+
 /// C14: format, reparse, compare trees, format again, compile both.
 fn op_fmt(req: &Value) -> Value {
     let src = req.get("src").and_then(|v| v.as_str()).unwrap_or("");
@@ -321,6 +359,11 @@ fn op_fmt(req: &Value) -> Value {
             tree_strip(&mut t2);
             let eq = t1 == t2;
             out.insert("tree_equal".into(), json!(eq));
+            if !eq {
+                if let Some((path, a, b)) = first_diff(&t1, &t2, String::new()) {
+                    out.insert("diff".into(), json!({"path": path, "a": a, "b": b}));
+                }
+            }
             if !eq && req.get("trees").and_then(|v| v.as_bool()).unwrap_or(false) {
                 out.insert("tree1".into(), t1.clone());
                 out.insert("tree2".into(), t2);
@@ -616,6 +659,19 @@ fn handle(req: &Value, st: &mut State) -> Value {
         "staged" => op_staged(req),
         "entry" => op_entry(req),
         "docs" => op_docs(req),
+        "pl_json" => {
+            let src = req.get("src").and_then(|v| v.as_str()).unwrap_or("");
+            let (r, _) = guarded(|| prqlc::prql_to_pl(src).map(|pl| {
+                let mut v = serde_json::to_value(&pl).unwrap_or(Value::Null);
+                tree_strip(&mut v);
+                v
+            }));
+            match r {
+                Ok(Ok(v)) => json!({"pl": v}),
+                Ok(Err(e)) => json!({"errors": errs_json(&e)}),
+                Err(p) => json!({"panic": p}),
+            }
+        }
         "sqlparse" => op_sqlparse(req),
         "tokens" => op_tokens(req),
         "c17_enum" => c17::enumerate(req),
